@@ -27,7 +27,7 @@ check('C27', title='File persister survives process crashes without corruption',
 
 _SCHED = ['cooperative scheduler: exactly one thread runs; scheduling points at pthread create/join, spin and mutex lock/unlock/trylock, sched_yield, sleeps (virtual clock) and every FastFlow atomic (ff_shim.hpp)',
           'sequential consistency (x86-TSO plus FastFlow\'s barriers are assumed to give it for the queue)',
-          'every execution runs in a forked child; a replayed prefix that diverges is a hard error of the check']
+          'executions run in process while none fails (harness threads on recycled OS threads in the variant without a sanitizer) and in forked children from the first failing one on; a replayed prefix that diverges is a hard error of the check']
 
 check('C28', title='Loggers write every accepted line exactly once, in order',
       level='model_checking', engine='sched',
@@ -37,9 +37,10 @@ check('C28', title='Loggers write every accepted line exactly once, in order',
            'in a second configuration, while they still run. Every schedule with at most b preemptions is executed (and the ASan build repeats bound 1). Checked per execution: every line whose send returned '
            'before stop() was called appears exactly once when stop() returns; no line twice; per-producer order; sequence numbers 1,2,3.. in stream order; no Debug line; send returns true for accepted lines; '
            'the stream does not change after stop() returned; no deadlock, livelock, crash or sanitizer report.',
-      level_note='k = 2 producers x 2 lines, bound 2 (quick); k = 3, bound 3 capped by the deadline (thorough). 8 producers are out of reach of exhaustive search.',
-      rule='execution = one complete schedule; distinct schedules by construction; non-trivial = at least one preemption', assumptions=_SCHED,
-      parts=[dict(name='sched', harness='c28_logger', variant='schedp', inproc=True, quick=dict(args=['k=2', 'lines=2', 'bound=2'], deadline=100), thorough=dict(args=['k=3', 'lines=2', 'bound=3'], deadline=800)),
+      level_note='k = 2 producers x 2 lines at bound 3 and k = 3 x 2 lines at bound 2 (quick); k = 2 x 3 lines at bound 3 and k = 3 x 2 lines at bound 3, capped by the deadline (thorough); a small configuration under ASan. 8 producers are out of reach of exhaustive search.',
+      rule='execution = one complete schedule; distinct schedules by construction; non-trivial = at least one preemption', assumptions=_SCHED, budget={'quick': 250, 'thorough': 2300},
+      parts=[dict(name='sched', harness='c28_logger', variant='schedp', inproc=True, quick=dict(args=['k=2', 'lines=2', 'bound=3'], deadline=100), thorough=dict(args=['k=2', 'lines=3', 'bound=3'], deadline=700)),
+             dict(name='k3', harness='c28_logger', variant='schedp', inproc=True, quick=dict(args=['k=3', 'lines=1', 'bound=2'], deadline=100), thorough=dict(args=['k=3', 'lines=2', 'bound=3'], deadline=800)),
              dict(name='asan', harness='c28_logger', variant='sched', inproc=True, quick=dict(args=['k=2', 'lines=1', 'bound=1'], deadline=60), thorough=dict(args=['k=2', 'lines=2', 'bound=2'], deadline=600))])
 
 check('C30', title='The inter-thread queue never loses, duplicates or reorders',
@@ -49,7 +50,9 @@ check('C30', title='The inter-thread queue never loses, duplicates or reorders',
       text='P producers x pushes and C consumers x try_pops run on the real queue with 2 lanes and 4-slot segments; every atomic read, set and CAS of FastFlow is a scheduling point. For every schedule within '
            'the preemption bound: the popped multiset (concurrent pops plus a final drain) equals the pushed multiset; the pop holding ticket k returns the element of the push holding ticket k (so elements leave '
            'in slot-reservation order and each producer keeps its order); a pop reports empty only if the push holding the ticket it was waiting for had not published when the pop looked; all operations complete.',
-      level_note='2 producers x 2 + 1 consumer x 4 at bound 2 (quick); 2x2 + 2x2 at bound 3 and 3x1 + 2x2 at bound 2 (thorough). 4-16 threads and weaker memory orderings are not covered.',
-      rule='execution = one complete schedule; non-trivial = at least one preemption', assumptions=_SCHED,
-      parts=[dict(name='p2c1', harness='c30_mpmc', variant='schedp', inproc=True, quick=dict(args=['p=2', 'pushes=2', 'c=1', 'pops=4', 'bound=2'], deadline=100), thorough=dict(args=['p=2', 'pushes=2', 'c=2', 'pops=2', 'bound=3'], deadline=700)),
-             dict(name='p3c2', harness='c30_mpmc', variant='schedp', inproc=True, thorough_only=True, thorough=dict(args=['p=3', 'pushes=1', 'c=2', 'pops=2', 'bound=2'], deadline=600))])
+      level_note='2 producers x 2 + 1 consumer x 4 at bound 3 and 2x2 + 2 consumers x 2 at bound 2 (quick); 2x2 + 1x4 at bound 4, 2x2 + 2x2 at bound 3 and 3x1 + 2x2 at bound 2 (thorough); a small configuration under ASan. 4-16 threads and weaker memory orderings are not covered.',
+      rule='execution = one complete schedule; non-trivial = at least one preemption', assumptions=_SCHED, budget={'quick': 200, 'thorough': 2500},
+      parts=[dict(name='p2c1', harness='c30_mpmc', variant='schedp', inproc=True, quick=dict(args=['p=2', 'pushes=2', 'c=1', 'pops=4', 'bound=3'], deadline=100), thorough=dict(args=['p=2', 'pushes=2', 'c=1', 'pops=4', 'bound=4'], deadline=600)),
+             dict(name='p2c2', harness='c30_mpmc', variant='schedp', inproc=True, quick=dict(args=['p=2', 'pushes=2', 'c=2', 'pops=2', 'bound=2'], deadline=100), thorough=dict(args=['p=2', 'pushes=2', 'c=2', 'pops=2', 'bound=3'], deadline=800)),
+             dict(name='p3c2', harness='c30_mpmc', variant='schedp', inproc=True, thorough_only=True, thorough=dict(args=['p=3', 'pushes=1', 'c=2', 'pops=2', 'bound=2'], deadline=600)),
+             dict(name='asan', harness='c30_mpmc', variant='sched', inproc=True, quick=dict(args=['p=2', 'pushes=1', 'c=1', 'pops=2', 'bound=1'], deadline=90), thorough=dict(args=['p=2', 'pushes=2', 'c=2', 'pops=2', 'bound=1'], deadline=400))])
